@@ -47,6 +47,7 @@ structure Step (s s' : Proto) : Prop where
   cmds : s'.cmds = s.cmds
   seq : s'.seq = s.seq
   script : s'.script = s.script
+  protocol : s'.protocol = s.protocol
   futsLen : s'.futs.length = s.futs.length
   awaiting : s'.awaiting = s.awaiting ∨ ∃ sq, s'.awaiting = s.awaiting.filter (·.1 != sq)
   futs : ∀ i, s'.futs[i]? = s.futs[i]? ∨
@@ -54,7 +55,7 @@ structure Step (s s' : Proto) : Prop where
   trace : ∃ t, s'.trace = s.trace ++ t ∧ ∀ e ∈ t, ∃ n v, e = .callback n v
 
 theorem Step.refl (s : Proto) : Step s s :=
-  ⟨rfl, rfl, rfl, rfl, rfl, .inl rfl, fun _ => .inl rfl, [], by simp, by simp⟩
+  ⟨rfl, rfl, rfl, rfl, rfl, rfl, .inl rfl, fun _ => .inl rfl, [], by simp, by simp⟩
 
 theorem Step.wf {s s' : Proto} (h : Step s s') (hw : WF s) : WF s' := by
   intro e he
@@ -77,10 +78,10 @@ theorem call_step (s : Proto) (d : List UInt8) (hw : WF s) :
   | ok sq id name vals tr =>
     have hwf : ∀ eid fid, s.awaiting.lookup sq = some (eid, fid) → fid < s.futs.length :=
       fun eid fid hl => hw _ (lookup_mem _ _ _ hl)
-    obtain ⟨ha, hv, hcm, hsq, hsc, hout⟩ := call_ok_frame s d sq id name vals tr hc hwf
+    obtain ⟨ha, hv, hcm, hsq, hsc, hpr, hout⟩ := call_ok_frame s d sq id name vals tr hc hwf
     have hf := call_ok_futs s d sq id name vals tr hc
     have ht := call_ok_trace s d sq id name vals tr hc
-    refine ⟨⟨hv, hcm, hsq, hsc, ?_, ?_, ?_, ?_⟩, ?_⟩
+    refine ⟨⟨hv, hcm, hsq, hsc, hpr, ?_, ?_, ?_, ?_⟩, ?_⟩
     · rw [hf]; split
       · rfl
       · split <;> (try split) <;> simp
@@ -123,15 +124,16 @@ structure Steps (s s' : Proto) : Prop where
   cmds : s'.cmds = s.cmds
   seq : s'.seq = s.seq
   script : s'.script = s.script
+  protocol : s'.protocol = s.protocol
   futsLen : s'.futs.length = s.futs.length
   sub : ∀ e ∈ s'.awaiting, e ∈ s.awaiting
   stable : ∀ i : Nat, s.futs[i]? ≠ some PFut.pending → s'.futs[i]? = s.futs[i]?
   trace : ∃ t, s'.trace = s.trace ++ t ∧ ∀ e ∈ t, ∃ n v, e = .callback n v
 
-theorem Steps.refl (s : Proto) : Steps s s := ⟨rfl, rfl, rfl, rfl, rfl, fun _ h => h, fun _ _ => rfl, [], by simp, by simp⟩
+theorem Steps.refl (s : Proto) : Steps s s := ⟨rfl, rfl, rfl, rfl, rfl, rfl, fun _ h => h, fun _ _ => rfl, [], by simp, by simp⟩
 
 theorem Step.steps {s s' : Proto} (h : Step s s') : Steps s s' := by
-  refine ⟨h.version, h.cmds, h.seq, h.script, h.futsLen, ?_, ?_, h.trace⟩
+  refine ⟨h.version, h.cmds, h.seq, h.script, h.protocol, h.futsLen, ?_, ?_, h.trace⟩
   · intro e he
     rcases h.awaiting with ha | ⟨sq, ha⟩
     · rw [ha] at he; exact he
@@ -143,7 +145,7 @@ theorem Step.steps {s s' : Proto} (h : Step s s') : Steps s s' := by
 
 theorem Steps.trans {a b c : Proto} (h1 : Steps a b) (h2 : Steps b c) : Steps a c := by
   refine ⟨h2.version.trans h1.version, h2.cmds.trans h1.cmds, h2.seq.trans h1.seq, h2.script.trans h1.script,
-    h2.futsLen.trans h1.futsLen, fun e he => h1.sub e (h2.sub e he), ?_, ?_⟩
+    h2.protocol.trans h1.protocol, h2.futsLen.trans h1.futsLen, fun e he => h1.sub e (h2.sub e he), ?_, ?_⟩
   · intro i hi
     have hb := h1.stable i hi
     rw [h2.stable i (by rw [hb]; exact hi), hb]
@@ -158,25 +160,32 @@ theorem Steps.trans {a b c : Proto} (h1 : Steps a b) (h2 : Steps b c) : Steps a 
 theorem Steps.wf {s s' : Proto} (h : Steps s s') (hw : WF s) : WF s' := by
   intro e he; rw [h.futsLen]; exact hw e (h.sub e he)
 
-/-- the guard contains whatever the generated `__call__` raises: the frame is processed or ignored, the caller never sees it -/
+/-- a frame the guard does not even hand to the handler: none is configured, or the frame is empty -/
+def ignored (s : Proto) (d : List UInt8) : Bool := s.protocol.isNone || d.isEmpty
+
+/-- the generated `EZSP.frame_received` contains whatever the generated `__call__` raises: the frame is processed or ignored, the
+caller never sees an exception -/
 theorem frameReceived_eq (s : Proto) (d : List UInt8) (hw : WF s) :
-    frameReceived d s = (.ok (), if d.isEmpty then s else (handler_call d s).2) := by
-  unfold frameReceived
-  by_cases hd : d.isEmpty = true
-  · simp [hd]
-  · simp only [hd, Bool.false_eq_true, ↓reduceIte]
-    obtain ⟨-, ho⟩ := call_step s d hw
-    rcases hx : handler_call d s with ⟨r, s'⟩
-    rw [hx] at ho
-    rcases ho with h | ⟨c, hc, h⟩
-    · simp only at h; subst h; rfl
-    · simp only at h; subst h
-      have : baseOnly.contains c = false := by simpa using hc
-      simp [this, hc]
+    frameReceived d s = (.ok (), if ignored s d then s else (handler_call d s).2) := by
+  unfold frameReceived BV.Src.EzspRx.frame_received ignored
+  cases hp : s.protocol with
+  | none => simp [bind, PyM.bind, PyM.get, hp, pure, PyM.pure]
+  | some u =>
+    by_cases hd : d.isEmpty = true
+    · simp [bind, PyM.bind, PyM.get, hp, hd, pure, PyM.pure]
+    · obtain ⟨-, ho⟩ := call_step s d hw
+      rcases hx : handler_call d s with ⟨r, s'⟩
+      rw [hx] at ho
+      rcases ho with h | ⟨c, hc, h⟩
+      · simp only at h; subst h
+        simp [bind, PyM.bind, PyM.get, hp, hd, PyM.attempt, hx, pure, PyM.pure]
+      · simp only at h; subst h
+        have : baseOnly.contains c = false := by simpa using hc
+        simp [bind, PyM.bind, PyM.get, hp, hd, PyM.attempt, hx, pure, PyM.pure, PyErr.caughtBy, this, hc]
 
 theorem frameReceived_step (s : Proto) (d : List UInt8) (hw : WF s) : Step s (frameReceived d s).2 := by
   rw [frameReceived_eq s d hw]
-  by_cases hd : d.isEmpty = true
+  by_cases hd : ignored s d = true
   · simp [hd]; exact Step.refl s
   · simp [hd]; exact (call_step s d hw).1
 
@@ -389,7 +398,7 @@ theorem deliverAll_pending_kept (ds : List (List UInt8)) (s : Proto) (seq cid fi
     simp only [deliverAll, bind, PyM.bind, hx]
     have hp1 : s1.futs[fid]? = some .pending := by
       rw [h1]
-      by_cases hd : d.isEmpty = true
+      by_cases hd : ignored s d = true
       · simp [hd]; exact hp
       · simp only [hd, Bool.false_eq_true, ↓reduceIte]
         refine call_pending_kept s d fid hp ?_
@@ -439,7 +448,7 @@ theorem deliverAll_flip (ds : List (List UInt8)) (s : Proto) (seq cid fid : Nat)
         have hst := (deliverAll_spec ds s1 (hs.wf hw)).2.stable fid (by rw [hf1]; intro h; injection h with h; cases h)
         rw [hst, hf1] at hr
         injection hr with hr; injection hr with hr; subst hr
-        by_cases hd : d.isEmpty = true
+        by_cases hd : ignored s d = true
         · simp [hd] at h1; subst h1; rw [hp] at hf1; injection hf1 with h; cases h
         · simp only [hd, Bool.false_eq_true, ↓reduceIte] at h1
           subst h1
@@ -1186,7 +1195,7 @@ theorem deliverAll_kept (ds : List (List UInt8)) (s : Proto) (seq cid fid : Nat)
     simp only [deliverAll, bind, PyM.bind, hx, pure, PyM.pure] at hpk ⊢
     have hm1 : (seq, (cid, fid)) ∈ s1.awaiting := by
       rw [h1]
-      by_cases hd : d.isEmpty = true
+      by_cases hd : ignored s d = true
       · simp [hd]; exact hm
       · simp only [hd, Bool.false_eq_true, ↓reduceIte]
         exact call_entry_kept s d seq hw (h d List.mem_cons_self) _ hm rfl
@@ -1199,13 +1208,13 @@ theorem deliverAll_kept (ds : List (List UInt8)) (s : Proto) (seq cid fid : Nat)
 theorem deliverAll_reply (pre post : List (List UInt8)) (d : List UInt8) (s : Proto) (seq cid fid : Nat) (nm : String) (v : Vals)
     (tr : List UInt8) (hw : WF s) (ho : Own s seq cid fid) (hm : (seq, (cid, fid)) ∈ s.awaiting) (hp : s.futs[fid]? = some .pending)
     (hno : ∀ x ∈ pre, ∀ id nm v tr, rxFrame s.version s.cmds x ≠ .ok seq id nm v tr)
-    (hd : rxFrame s.version s.cmds d = .ok seq cid nm v tr) (hnm : nm ≠ "invalidCommand") :
+    (hd : rxFrame s.version s.cmds d = .ok seq cid nm v tr) (hnm : nm ≠ "invalidCommand") (hpr : s.protocol = some ()) :
     (deliverAll (pre ++ d :: post) s).2.futs[fid]? = some (.result v) := by
   induction pre generalizing s with
   | nil =>
     have hl := lookup_of_own s seq cid fid ho hm
     have hcr := call_reply s d seq cid fid nm v tr hd hl hnm hp
-    have hne := rxFrame_nonempty _ _ _ _ _ _ _ _ hd
+    have hne : ignored s d = false := by simp [ignored, hpr, rxFrame_nonempty _ _ _ _ _ _ _ _ hd]
     have h1 := frameReceived_eq s d hw
     have hs := frameReceived_step s d hw
     rcases hx : frameReceived d s with ⟨r, s1⟩
@@ -1233,7 +1242,7 @@ theorem deliverAll_reply (pre post : List (List UInt8)) (d : List UInt8) (s : Pr
     subst hr0
     simp only [deliverAll, bind, PyM.bind, hx, pure, PyM.pure] at hmk hpk
     simp only [List.cons_append, deliverAll, bind, PyM.bind, hx]
-    refine ih s1 (hs.wf hw) (ho.sub hs.steps.sub) hmk hpk ?_ ?_
+    refine ih s1 (hs.wf hw) (ho.sub hs.steps.sub) hmk hpk ?_ ?_ (hs.protocol.trans hpr)
     · intro y hy id nm v tr
       rw [hs.version, hs.cmds]
       exact hno y (List.mem_cons_of_mem _ hy) id nm v tr
@@ -1257,7 +1266,7 @@ theorem command_reply (s : Proto) (name : String) (args : Vals) (kwargs : KwVals
     (hc : findByName s.cmds name = some c)
     (hfr : (ezsp_frame name args kwargs (entered s name (.send f1 none :: .wait (pre ++ d :: post) fin :: rest))).1 = .ok data)
     (hno : ∀ x ∈ f1 ++ pre, ∀ id nm v tr, rxFrame s.version s.cmds x ≠ .ok s.seq id nm v tr)
-    (hd : rxFrame s.version s.cmds d = .ok s.seq c.id nm v tr) (hnm : nm ≠ "invalidCommand") :
+    (hd : rxFrame s.version s.cmds d = .ok s.seq c.id nm v tr) (hnm : nm ≠ "invalidCommand") (hpr : s.protocol = some ()) :
     (command name args kwargs s).1 = .ok v := by
   rw [command_granted s name args kwargs _ hs]
   have hw1 : WF (entered s name (.send f1 none :: .wait (pre ++ d :: post) fin :: rest)) := hw
@@ -1302,7 +1311,7 @@ theorem command_reply (s : Proto) (name : String) (args : Vals) (kwargs : KwVals
       rw [hst1.version, hst1.cmds]
       exact hno x (List.mem_append_right _ hx') id nm v tr)
     (by show rxFrame sa.version sa.cmds d = _
-        rw [hst1.version, hst1.cmds]; exact hd) hnm
+        rw [hst1.version, hst1.cmds]; exact hd) hnm (by show sa.protocol = _; rw [hst1.protocol]; exact hpr)
   generalize hsb : (deliverAll (pre ++ d :: post) { sa with script := rest, trace := sa.trace ++ [.wait 10] }).2 = sb at hwp hres
   unfold waitEnd at hwp
   rw [hres] at hwp
